@@ -58,7 +58,8 @@ impl Dp {
             return Err(Error::BadEpsilon(epsilon));
         }
 
-        if !(f64::MIN_POSITIVE..=1.0 - f64::MIN_POSITIVE).contains(&delta) {
+        // note that `1.0 - f64::MIN_POSITIVE == 1.0`, so the upper bound must be exclusive
+        if !(f64::MIN_POSITIVE..1.0).contains(&delta) {
             return Err(Error::BadDelta(delta));
         }
 
@@ -196,7 +197,8 @@ impl OPRFPaddingDp {
             return Err(Error::BadEpsilon(new_epsilon));
         }
 
-        if !(f64::MIN_POSITIVE..=1.0 - f64::MIN_POSITIVE).contains(&new_delta) {
+        // note that `1.0 - f64::MIN_POSITIVE == 1.0`, so the upper bound must be exclusive
+        if !(f64::MIN_POSITIVE..1.0).contains(&new_delta) {
             return Err(Error::BadDelta(new_delta));
         }
         if new_sensitivity > 1_000_000 {
